@@ -10,7 +10,7 @@ from .bits import AV, Sym
 from .domains import check_domain, looks_undecided, semantic_domain
 from .fold import ClassRef, FuncRef
 from .intset import IntSet, Undecidable
-from .model import AnalysisError
+from .model import AnalysisError, Unsupported
 
 CHECKS_MOD = 'mido.messages.checks'
 SPECS_MOD = 'mido.messages.specs'
@@ -71,7 +71,7 @@ def attr_domains(ctx, report_rule=None):
             raise AnalysisError(f'{fn.qname} has no parameter')
         try:
             r = check_domain(ctx.p, ctx.f, fn, params[0], cenv)
-        except Undecidable as e:
+        except (Undecidable, Unsupported) as e:
             r, err = None, e
         if looks_undecided(r):
             try:
@@ -127,26 +127,33 @@ def data_byte_domain(ctx):
     outs = ai.explore(thunk)
     if len(outs) != 1 or outs[0].kind != 'return':
         return fn, None, None
-    calls = [e for e in holder['log'] if e[0] == 'enter' and any(e[2] is x for x in xs)]
+    def item_of(e):
+        # the item is the first argument of a function / closure, or the second of a method bound to a helper object
+        for x in xs:
+            if e[2] is x or (len(e) > 6 and e[6] is x):
+                return x
+        return None
+    calls = [e for e in holder['log'] if e[0] == 'enter' and item_of(e) is not None]
     if calls:
         top = min(e[5] for e in calls)          # the callable check_data itself applies (it may delegate further down)
         calls = [e for e in calls if e[5] == top]
-    seen = [next(i for i, x in enumerate(xs) if e[2] is x) for e in calls]
-    infos = {(e[3].qname, id(e[4]) if e[4] is not None else None) for e in calls}
+    seen = [next(i for i, x in enumerate(xs) if item_of(e) is x) for e in calls]
+    infos = {(e[3].qname, id(e[4]) if e[4] is not None else None, id(e[2]) if len(e) > 6 and item_of(e) is e[6] else None) for e in calls}
     if seen != [0, 1, 2] or len(infos) != 1:
         return fn, None, None
     item_fn, closure = calls[0][3], calls[0][4]
+    receiver = calls[0][2] if len(calls[0]) > 6 and item_of(calls[0]) is calls[0][6] else None
     ctx.fn(item_fn)
     ienv = {}
     if closure is not None:
         ienv = {k: (v.const if isinstance(v, AV) and v.is_const else v) for k, v in closure.items()
                 if isinstance(v, (int, float, str, bool, type(None))) or (isinstance(v, AV) and v.is_const)}
     try:
-        r = check_domain(ctx.p, ctx.f, item_fn, item_fn.params()[0], ienv)
-    except Undecidable:
+        r = None if receiver is not None else check_domain(ctx.p, ctx.f, item_fn, item_fn.params()[0], ienv)
+    except (Undecidable, Unsupported):
         r = None
     if looks_undecided(r):
-        item_ref = ('closure', item_fn, closure) if closure is not None else FuncRef(item_fn)
+        item_ref = ('bound', receiver, item_fn) if receiver is not None else ('closure', item_fn, closure) if closure is not None else FuncRef(item_fn)
         try:
             r = semantic_domain(ctx, lambda ai_, v: ai_.apply(item_ref, [v], {}, None))
         except (Undecidable, AnalysisError) as e:
